@@ -10,7 +10,10 @@ import Pog.Model.Conv
   what `unstructure_to_dict` returns             `PV`: JSON plus `.leak id` (a LIVE dataclass instance left in the
                                                  output: a field annotated with an unresolved forward reference is passed
                                                  through unchanged) and `.opaque` (bytearray, other objects: not JSON)
-  `converter.unstructure` following references   `hUnstr` (fuel = nesting depth; a reference cycle consumes all of it)
+  `converter.unstructure` following references   `hUnstr … visited` (fuel = nesting depth)
+  `_with_cycle_guard` / `_objects_in_progress`    `guardEnter`, the `visited.contains id` tests of `hUnstr`: the unstructure function
+                                                 of every list, dict and dataclass type returns `None` for an object whose id
+                                                 is in the set, and adds the id while it runs
   `_serialize_with_tracking(obj, visited)`       `serF … visited reg obj`
   `_ensure_all_dicts(obj, visited)`              `PV.ensureWith track reg obj` (`track` = `_serialize_with_tracking` with that `visited`)
   `_remove_none_values`                          `PV.removeNone`
@@ -19,10 +22,11 @@ import Pog.Model.Conv
                                                  enclosing list / dataclass objects: passed down as `id :: visited`
   the registered unstructure hooks               threaded through (`unstructure_to_dict` registers the classes reachable from a
                                                  dataclass instance; a dict is unstructured WITHOUT registering anything)
-  RecursionError                                 `.error .fuel` for EVERY fuel
+  RecursionError                                 `.error .fuel` for EVERY fuel (`C16.serializer_terminates`: never)
 
-  Only `list` and dataclass objects are tracked in `visited`; a dict, and everything cattrs itself walks through
-  (fields typed by a resolved class, `Any`, unions, dict values), is not.
+  `unstructure_to_dict(obj, visited)` hands the serializer's OWN set to cattrs: the set holds the ids of the enclosing
+  objects whether the serializer's recursion or cattrs' walk entered them (F26, repaired: before, cattrs walked fields
+  typed by a resolved class, `Any`, unions and dict values without consulting it).
 -/
 namespace Pog
 
@@ -219,34 +223,45 @@ def hAttrs (heap : Heap) : HVal → List (Str × HVal)
     | _ => []
   | _ => []
 
-/-- `converter.unstructure(v, unstructure_as=T)` / by runtime class, on heap values. -/
-def hUnstr (c : Codecs) : Nat → Heap → List Str → Decls → Option Ty → HVal → Except UErr PV
-  | 0, _, _, _, _, _ => .error .fuel
-  | n + 1, heap, reg, decls, some t, v =>
+/-- The cycle guard around the unstructure function of a container type (`_with_cycle_guard`): `none` = the object
+    is being unstructured already (its id is in the set) and the call returns `None`; otherwise the set the wrapped
+    function runs with — the id added for an object, unchanged for an immediate (nothing refers back to one). -/
+def guardEnter (visited : List Nat) : HVal → Option (List Nat)
+  | .ref id => if visited.contains id then none else some (id :: visited)
+  | _ => some visited
+
+/-- `converter.unstructure(v, unstructure_as=T)` / by runtime class, on heap values, with the guard set `visited`
+    (`_objects_in_progress`: the ids of the enclosing dataclass / list / dict objects).  The unstructure function of
+    every `list`, `dict` and dataclass type — the per-class hook and cattrs' default alike — sits behind the guard. -/
+def hUnstr (c : Codecs) : Nat → Heap → List Nat → List Str → Decls → Option Ty → HVal → Except UErr PV
+  | 0, _, _, _, _, _, _ => .error .fuel
+  | n + 1, heap, visited, reg, decls, some t, v =>
     match t with
     | .leaf l => hUnstrLeaf c heap l v
-    | .any => hUnstr c n heap reg decls none v
+    | .any => hUnstr c n heap visited reg decls none v
     | .none => hIdentity heap v
     | .fwd _ => hIdentity heap v
     | .list t' =>
       match v with
       | .ref id =>
+        if visited.contains id then .ok .null else
         match heap.get id with
-        | some (.list items) => (mapE (hUnstr c n heap reg decls (some t')) items).map PV.arr
+        | some (.list items) => (mapE (hUnstr c n heap (id :: visited) reg decls (some t')) items).map PV.arr
         | _ => .error .illTyped
       | _ => .error .illTyped
     | .dict t' =>
       match v with
       | .ref id =>
+        if visited.contains id then .ok .null else
         match heap.get id with
-        | some (.dict kvs) => (mapValsE (hUnstr c n heap reg decls (some t')) kvs).map PV.obj
+        | some (.dict kvs) => (mapValsE (hUnstr c n heap (id :: visited) reg decls (some t')) kvs).map PV.obj
         | _ => .error .illTyped
       | _ => .error .illTyped
     | .optional t' =>
       match v with
       | .none => .ok .null
-      | _ => hUnstr c n heap reg decls (some t') v
-    | .union _ _ => hUnstr c n heap reg decls none v
+      | _ => hUnstr c n heap visited reg decls (some t') v
+    | .union _ _ => hUnstr c n heap visited reg decls none v
     | .enum _ members =>
       if members.all JsonV.isStr then hIdentity heap v else
       match v with
@@ -256,9 +271,12 @@ def hUnstr (c : Codecs) : Nat → Heap → List Str → Decls → Option Ty → 
       match aget decls name with
       | none => .error .illTyped
       | some cd =>
-        (hUnstrFields (fun ft fv => hUnstr c n heap reg decls (some ft) fv) cd (reg.contains name)
-          (hAttrs heap v) cd.fields).map (fun kvs => PV.obj (aofPairs kvs))
-  | n + 1, heap, reg, decls, none, v =>
+        match guardEnter visited v with
+        | none => .ok .null
+        | some visited' =>
+          (hUnstrFields (fun ft fv => hUnstr c n heap visited' reg decls (some ft) fv) cd (reg.contains name)
+            (hAttrs heap v) cd.fields).map (fun kvs => PV.obj (aofPairs kvs))
+  | n + 1, heap, visited, reg, decls, none, v =>
     match v with
     | .none => .ok .null
     | .bool b => .ok (.bool b)
@@ -275,9 +293,13 @@ def hUnstr (c : Codecs) : Nat → Heap → List Str → Decls → Option Ty → 
     | .ref id =>
       match heap.get id with
       | none => .error .illTyped
-      | some (.list items) => (mapE (hUnstr c n heap reg decls none) items).map PV.arr
-      | some (.dict kvs) => (mapValsE (hUnstr c n heap reg decls none) kvs).map PV.obj
-      | some (.inst cls _) => hUnstr c n heap reg decls (some (.dc cls)) v
+      | some (.list items) =>
+        if visited.contains id then .ok .null else
+        (mapE (hUnstr c n heap (id :: visited) reg decls none) items).map PV.arr
+      | some (.dict kvs) =>
+        if visited.contains id then .ok .null else
+        (mapValsE (hUnstr c n heap (id :: visited) reg decls none) kvs).map PV.obj
+      | some (.inst cls _) => hUnstr c n heap visited reg decls (some (.dc cls)) v
 
 /-! ## the serializer -/
 
@@ -361,20 +383,21 @@ def serF (c : Codecs) : Nat → Heap → Decls → List Nat → List Str → HVa
         | .ok (ps, reg1) => .ok (.arr ps, reg1)
       | some (.inst cls _) =>
         -- `unstructure_to_dict(obj)`: register, then unstructure by runtime class
+        -- (the guarded hook of the class adds `id` to the shared set while cattrs walks, and removes it again)
         let reg1 := (regTy n decls [] (.dc cls)).foldl insertName reg
-        match hUnstr c n heap reg1 decls (some (.dc cls)) v with
+        match hUnstr c n heap visited reg1 decls (some (.dc cls)) v with
         | .error e => .error e
         | .ok result =>
           match PV.ensureWith (fun r i => serF c n heap decls (id :: visited) r (.ref i)) reg1 result with
           | .error e => .error e
           | .ok (p, reg2) => .ok (p.removeNone, reg2)
       | some (.dict _) =>
-        -- "everything else": cattrs by runtime class, nothing registered, nothing tracked, no `_ensure_all_dicts`
-        match hUnstr c n heap reg decls none v with
+        -- "everything else": cattrs by runtime class (behind the guard), nothing registered, no `_ensure_all_dicts`
+        match hUnstr c n heap visited reg decls none v with
         | .error e => .error e
         | .ok result => .ok (result.removeNone, reg)
     | _ =>
-      match hUnstr c n heap reg decls none v with
+      match hUnstr c n heap visited reg decls none v with
       | .error e => .error e
       | .ok result => .ok (result.removeNone, reg)
 
@@ -397,21 +420,10 @@ def PV.noNullKeysList : List PV → Bool
   | x :: xs => PV.noNullKeys x && PV.noNullKeysList xs
 end
 
-/-! ## acyclic heaps (vocabulary of `serializer_terminates_partial`) -/
-
 def HObj.children : HObj → List HVal
   | .list items => items
   | .dict kvs => kvs.map Prod.snd
   | .inst _ attrs => attrs.map Prod.snd
-
-/-- Rank of a value: one more than the rank of the object it refers to; immediates have rank 0. -/
-def rankV (rank : Nat → Nat) : HVal → Nat
-  | .ref id => rank id + 1
-  | _ => 0
-
-/-- The heap is acyclic: `rank` strictly decreases along every reference held by an object. -/
-def Ranked (heap : Heap) (rank : Nat → Nat) : Prop :=
-  ∀ id o, heap.get id = some o → ∀ v ∈ o.children, rankV rank v ≤ rank id
 
 mutual
 /-- The live dataclass instances left in a cattrs result. -/
